@@ -487,12 +487,6 @@ Definition a_oof (c : acase) : bool := match fst (a_run c) with LOutOfFuel => tr
 Definition a_mismatches (cs : list acase) : list nat := true_idx (map (fun c => negb (a_agrees c && a_bounds_ok c)) cs).
 Definition a_violations (cs : list acase) : list nat := true_idx (map (fun c => negb (a_spec_ok c)) cs).
 Definition a_fuel_outs (cs : list acase) : list nat := true_idx (map a_oof cs).
-(* finding C16-hostport-error-alloc: a Host containing ':' that net.SplitHostPort rejects
-   (StripHostPort then returns it unchanged) costs the one *net.AddrError the rejection allocates *)
-Definition a_hostport_error (c : acase) : bool :=
-  existsb (Ascii.eqb ":") (a_rawhost c) && bytes_eqb (a_rawhost c) (a_host c).
-Definition a_known_hostport (cs : list acase) : list nat :=
-  true_idx (map (fun c => negb (a_spec_ok c) && a_hostport_error c && N.eqb (a_allocs c) 1 && negb (a_warm c)) cs).
 (* cases where the cold run had to grow the skipped-node stack: depth under-sizes it (docs/C16.md) *)
 Definition a_cold_growth (cs : list acase) : list nat :=
   true_idx (map (fun c => grows (a_caps c) (snd (a_run c))) cs).
